@@ -16,7 +16,10 @@
 // c18_stream_decoder.rs): the buffer returned by `dyn Decoder::decode` is a Cow<AudioBuffer<S>> whose variant and
 // contents are no longer constants for CBMC, so every loop iteration explores all ten sample formats, both channel
 // layouts and the freeing of an owned buffer (900 s without leaving symex). The packet loop is therefore NOT decided;
-// seed C18-m3 (frames resized to the header's frame count) is consequently missed.
+// seed C18-m3 (frames resized to the header's frame count) is consequently missed. Even the scripts that return an error
+// BEFORE the loop (no track, no sample rate) run out of memory: symbolic execution does not prune the loop behind the
+// early return. The same early returns ARE decided for the streaming side (SymphoniaDecoder::new, c18_stream_decoder.rs),
+// whose remaining code is small.
 
 include!(concat!(env!("KV_HARNESS_DIR"), "/lib/symphonia_mock.rs"));
 
@@ -32,8 +35,10 @@ static mut KV_READER: Option<KvReader> = None;
 static mut KV_CODEC: Option<KvCodec> = None;
 
 // the registries are never looked at: both of their methods that kira calls are stubbed
-fn kv_get_probe() -> &'static KvProbe { unsafe { &*std::ptr::NonNull::<KvProbe>::dangling().as_ptr() } }
-fn kv_get_codecs() -> &'static KvCodecRegistry { unsafe { &*std::ptr::NonNull::<KvCodecRegistry>::dangling().as_ptr() } }
+static KV_PROBE_MEM: std::mem::MaybeUninit<KvProbe> = std::mem::MaybeUninit::zeroed();
+static KV_CODECS_MEM: std::mem::MaybeUninit<KvCodecRegistry> = std::mem::MaybeUninit::zeroed();
+fn kv_get_probe() -> &'static KvProbe { unsafe { &*KV_PROBE_MEM.as_ptr() } }
+fn kv_get_codecs() -> &'static KvCodecRegistry { unsafe { &*KV_CODECS_MEM.as_ptr() } }
 fn kv_probe_format(_p: &KvProbe, _h: &KvHint, mss: MediaSourceStream, _f: &KvFormatOptions, _m: &KvMetadataOptions) -> KvSyResult<KvProbeResult> {
 	std::mem::forget(mss);
 	let reader = unsafe { (*std::ptr::addr_of_mut!(KV_READER)).take().unwrap() };
@@ -214,27 +219,58 @@ fn c18_load_malformed_packet_is_error_or_prefix() {
 	kani::cover!(reader_reports, "witness");
 }
 
+fn kv_load_incomplete(which: u8) {
+	if cfg!(kv_native) { return; }
+	let s: [f32; 2] = kani::any();
+	let rate: u32 = kani::any();
+	let tracks = match which { 0 => vec![], 1 => vec![kv_track(None, Some(1), 0)], _ => vec![kv_track(Some(rate), Some(1), 0)] };
+	let first = if which == 2 { KvStep::Malformed } else { KvStep::Packet(0) };
+	kv_install(tracks, [first, KvStep::Eof, KvStep::Eof, KvStep::Eof], true, &s, &[], None);
+	let r = kv_load_stubbed();
+	match which {
+		0 => assert!(matches!(r, Err(FromFileError::NoDefaultTrack)), "no track is an error value"),
+		1 => assert!(matches!(r, Err(FromFileError::UnknownSampleRate)), "an unknown sample rate is an error value, not an invented rate"),
+		_ => assert!(r.is_err(), "a malformed container is an error value (there is no valid prefix here)"),
+	}
+	kani::cover!(true, "witness");
+	std::mem::forget(r);
+}
+
 // @h prop=C18 tier=experimental kind=main timeout=900
-// @bounds a container without any track, and one whose default track does not state a sample rate (Kani only)
-// @funcs StaticSoundData::from_boxed_media_source
-// @assume as above
-// @catches panic (unwrap on default_track / sample_rate); a sound with an invented sample rate instead of an error
+// @bounds a container without any track (Kani only: a native replay has no counterpart)
+// @funcs StaticSoundData::from_media_source, StaticSoundData::from_boxed_media_source
+// @assume Symphonia's probe / codec registry replaced by contract stubs: Probe::format returns a scripted reader, CodecRegistry::make a scripted codec
+// @catches panic (unwrap on default_track); a sound invented from nothing
 #[kani::proof]
 #[kani::unwind(6)]
 #[kani::stub(symphonia::default::get_probe, kv_get_probe)]
 #[kani::stub(symphonia::default::get_codecs, kv_get_codecs)]
 #[kani::stub(symphonia::core::probe::Probe::format, kv_probe_format)]
 #[kani::stub(symphonia::core::codecs::CodecRegistry::make, kv_make)]
-fn c18_load_unsupported_container_is_error() {
-	if cfg!(kv_native) { return; }
-	let no_track: bool = kani::any();
-	let s: [f32; 2] = kani::any();
-	let tracks = if no_track { vec![] } else { vec![kv_track(None, Some(1), 0)] };
-	kv_install(tracks, [KvStep::Packet(0), KvStep::Eof, KvStep::Eof, KvStep::Eof], true, &s, &[], None);
-	let r = kv_load_stubbed();
-	assert!(r.is_err(), "no track / unknown sample rate is an error value");
-	if no_track { assert!(matches!(r, Err(FromFileError::NoDefaultTrack))); } else { assert!(matches!(r, Err(FromFileError::UnknownSampleRate))); }
-	kani::cover!(no_track, "witness");
-	std::mem::forget(r);
-}
+fn c18_load_without_track_is_error() { kv_load_incomplete(0) }
 
+// @h prop=C18 tier=experimental kind=main timeout=900
+// @bounds a default track that does not state a sample rate (Kani only)
+// @funcs StaticSoundData::from_boxed_media_source
+// @assume as above
+// @catches panic (unwrap on sample_rate); a sound with an invented sample rate instead of an error
+#[kani::proof]
+#[kani::unwind(6)]
+#[kani::stub(symphonia::default::get_probe, kv_get_probe)]
+#[kani::stub(symphonia::default::get_codecs, kv_get_codecs)]
+#[kani::stub(symphonia::core::probe::Probe::format, kv_probe_format)]
+#[kani::stub(symphonia::core::codecs::CodecRegistry::make, kv_make)]
+fn c18_load_without_rate_is_error() { kv_load_incomplete(1) }
+
+// @h prop=C18 tier=experimental kind=main timeout=900
+// @bounds a container whose FIRST packet read reports malformed data (Kani only)
+// @funcs StaticSoundData::from_boxed_media_source
+// @assume as above
+// @catches panic on the reader's error; the error swallowed into an (empty) sound; retrying forever
+#[kani::proof]
+#[kani::unwind(6)]
+#[kani::stub(symphonia::default::get_probe, kv_get_probe)]
+#[kani::stub(symphonia::default::get_codecs, kv_get_codecs)]
+#[kani::stub(symphonia::core::probe::Probe::format, kv_probe_format)]
+#[kani::stub(symphonia::core::codecs::CodecRegistry::make, kv_make)]
+fn c18_load_malformed_first_packet_is_error() { kv_load_incomplete(2) }
